@@ -265,7 +265,7 @@ func genC10Doc(t *rapid.T) map[string]any {
 
 func genC10(t *rapid.T) any {
 	c := &C10Case{}
-	c.Class = rapid.SampledFrom([]string{"valid", "valid", "mutated", "mutated", "mutated", "bytes", "hostile", "hostile", "hostile-mutated", "fault", "fault", "fault", "cyclic-format", "join-on", "join-on", "scale", "dual-subquery"}).Draw(t, "class")
+	c.Class = rapid.SampledFrom([]string{"valid", "valid", "mutated", "mutated", "mutated", "bytes", "hostile", "hostile", "hostile-mutated", "fault", "fault", "fault", "cyclic-format", "join-on", "join-on", "scale", "dual-subquery", "stateful-builtins"}).Draw(t, "class")
 	c.Opts = genC10Opts(t)
 	c.Proc = rapid.SampledFrom([]int{0, 0, 1, 2, 4}).Draw(t, "procs")
 	if rapid.IntRange(0, 3).Draw(t, "reexec") == 0 {
@@ -437,6 +437,26 @@ func genC10(t *rapid.T) any {
 				c.SQL = strings.Replace(c.SQL, "`<-t2`", "`<-root.t2`", 1)
 			}
 		}
+	case "stateful-builtins":
+		// built-ins that touch per-query state (variables, constants, the unreported-error channel), with and
+		// without the option that provides that state, always executed several times on one Query object
+		c.Doc = genC10Doc(t)
+		c.Reexec = rapid.IntRange(2, 3).Draw(t, "sb.reexec")
+		pool := []string{"SETVAR('x', k)", "GETVAR('x') AS g", "SETVAR('y', GETVAR('x'))", "GETVAR('nokey') AS n", "CONSTANT('pi') AS c", "REPORT('note')", "REPORT_WHEN(k > 1, 'big')", "RAISE_WHEN(k > 100, 'never')",
+			"ONCE.GETVAR('x') AS og", "GLOBAL.vf_id(k) AS gl", "ONCE.vf_id(k) AS oi", "k", "SETVAR(s, v)", "SETVAR(NULL, 1)", "GETVAR(k) AS gk", "TIMESTAMP() AS ts"}
+		n := rapid.IntRange(1, 4).Draw(t, "sb.n")
+		perm := rapid.Permutation(pool).Draw(t, "sb.items")
+		from := "t"
+		if c.Opts.Wrapped {
+			from = "root.t"
+		}
+		c.SQL = "SELECT " + strings.Join(perm[:n], ", ") + " FROM " + from
+		switch rapid.IntRange(0, 3).Draw(t, "sb.shape") {
+		case 0:
+			c.SQL = "SELECT * FROM (" + c.SQL + ") x"
+		case 1:
+			c.SQL = "SELECT k, (" + strings.Replace(c.SQL, " FROM "+from, " FROM dual", 1) + ") AS sb FROM " + from
+		}
 	case "dual-subquery":
 		// a table-less scalar subquery whose select list mixes comparisons, nested subqueries, back references
 		// and `*` in any order, under outer queries that format, hash, sort or group what it returns
@@ -534,7 +554,7 @@ func checkC10(c *C10Case) Result {
 		if parsed {
 			res.Labels = append(res.Labels, "reaches-build")
 		}
-		res.NonTrivial = parsed || c.Class == "fault" || c.Class == "cyclic-format" || c.Class == "mutated" || c.Class == "hostile-mutated" || c.Class == "scale" || c.Class == "dual-subquery"
+		res.NonTrivial = parsed || c.Class == "fault" || c.Class == "cyclic-format" || c.Class == "mutated" || c.Class == "hostile-mutated" || c.Class == "scale" || c.Class == "dual-subquery" || c.Class == "stateful-builtins"
 	}
 	return res
 }
